@@ -96,10 +96,33 @@ func e2eTrack(c *e2eCtx, decoys bool) error {
 				s.desc = cfgDesc(s.cfg)
 			}
 		}
+		// one decoy scenario in four is entered through a symbolic link to the project directory
+		// (the working directory the shell reports is not the physical path)
+		if decoys && i%4 == 1 {
+			link := s.dir + "-link"
+			os.Remove(link)
+			if err := os.Symlink(s.dir, link); err == nil {
+				s.runDir = link
+				s.desc += " cwd=symlink"
+				c.count("cwd:symlink")
+			}
+		}
 		c.trackAndJudge(s, decoys, r)
+		if s.runDir != "" {
+			os.Remove(s.runDir)
+		}
 		os.RemoveAll(s.dir)
 	})
 	return nil
+}
+
+func mainFileOf(s *scenario, path string) bool {
+	for _, pk := range s.p.Pkgs {
+		if pk.IsMain && filepath.Join(pk.Dir, pk.Entry()) == path {
+			return true
+		}
+	}
+	return false
 }
 
 func (c *e2eCtx) mainsOf(r *rand.Rand, p *proj.Project) []string { return nil }
@@ -159,7 +182,7 @@ func (c *e2eCtx) trackAndJudge(s *scenario, decoys bool, r *rand.Rand) {
 	wl := filepath.Join(s.dir, ".git", "verif-writelog")
 	cfgOnDisk, _ := os.ReadFile(filepath.Join(s.dir, "goat.yaml")) // written by the harness or by goat init
 	pm := c.predictDiff(s)
-	run := proj.RunGoat(c.goat, s.dir, []string{"GOAT_VERIF_WRITELOG=" + wl}, "track")
+	run := proj.RunGoat(c.goat, s.rdir(), []string{"GOAT_VERIF_WRITELOG=" + wl}, "track")
 	rp := func(extra map[string]any) map[string]any {
 		e := map[string]any{"config_desc": s.desc, "stderr": tail(run.Stderr, 1500), "exit": run.Exit}
 		for k, v := range extra {
@@ -220,6 +243,17 @@ func (c *e2eCtx) trackAndJudge(s *scenario, decoys bool, r *rand.Rand) {
 			}
 		}
 	}
+	// C09 / C13 / C04: a file that only the side branch of a diverged history edited (a function appended
+	// there) differs between the revisions, but no line of the new revision's file is added or modified
+	if s.cfg.Old != "INIT" {
+		for _, path := range sortedKeys(s.newTree) {
+			if s.sideOnly[path] && after[path] != s.newTree[path] && !mainFileOf(s, path) {
+				c.violate("C09,C13,C04", fmt.Sprintf("%s has no added or modified line (only the old revision's side branch appended a function to it) but was rewritten (%d tracking blocks)",
+					path, strings.Count(after[path], "// +goat:generate")), rp(map[string]any{"file": path}))
+				break
+			}
+		}
+	}
 	// C03 / C09: the blocks are where the model puts them for the real diff
 	c.judgeMarks(s, pm, after, rp)
 	// C05
@@ -229,7 +263,7 @@ func (c *e2eCtx) trackAndJudge(s *scenario, decoys bool, r *rand.Rand) {
 	mainFiles := map[string]bool{}
 	for _, pk := range s.p.Pkgs {
 		if pk.IsMain {
-			mainFiles[filepath.Join(pk.Dir, "main.go")] = true
+			mainFiles[filepath.Join(pk.Dir, pk.Entry())] = true
 		}
 	}
 	changedNew := map[string]bool{}
@@ -287,7 +321,7 @@ func (c *e2eCtx) trackAndJudge(s *scenario, decoys bool, r *rand.Rand) {
 		case 2: // every block deleted through patch (N = 0), then clean
 			flipDeletes(edited, files, r, 0, true)
 			writeFiles(s.dir, edited, files)
-			if pr := proj.RunGoat(c.goat, s.dir, nil, "patch"); pr.Exit != 0 {
+			if pr := proj.RunGoat(c.goat, s.rdir(), nil, "patch"); pr.Exit != 0 {
 				c.violate("C10", "goat patch failed after flipping every block: "+lastLine(pr.Stderr), rp(nil))
 			}
 		case 3: // sources restored from git, the untracked generated file stays behind
@@ -305,7 +339,7 @@ func (c *e2eCtx) trackAndJudge(s *scenario, decoys bool, r *rand.Rand) {
 			if len(fresh) > 0 {
 				addInserts(edited, fresh, r, 1+r.Intn(3))
 				writeFiles(s.dir, edited, files)
-				if pr := proj.RunGoat(c.goat, s.dir, nil, "patch"); pr.Exit != 0 {
+				if pr := proj.RunGoat(c.goat, s.rdir(), nil, "patch"); pr.Exit != 0 {
 					c.violate("C10", "goat patch failed on insert markers in not yet instrumented files: "+lastLine(pr.Stderr), rp(nil))
 				}
 			}
@@ -313,13 +347,13 @@ func (c *e2eCtx) trackAndJudge(s *scenario, decoys bool, r *rand.Rand) {
 			flipDeletes(edited, files, r, r.Intn(4), false)
 			addInserts(edited, files, r, r.Intn(3))
 			writeFiles(s.dir, edited, files)
-			proj.RunGoat(c.goat, s.dir, nil, "patch")
+			proj.RunGoat(c.goat, s.rdir(), nil, "patch")
 		}
 	}
 	// ---- clean
 	os.Remove(wl)
 	preClean := proj.ReadTree(s.dir)
-	cl := proj.RunGoat(c.goat, s.dir, []string{"GOAT_VERIF_WRITELOG=" + wl}, "clean")
+	cl := proj.RunGoat(c.goat, s.rdir(), []string{"GOAT_VERIF_WRITELOG=" + wl}, "clean")
 	if cl.Exit != 0 || isPanic(cl.Stderr) {
 		c.violate("C06", fmt.Sprintf("goat clean exited %d after track: %s", cl.Exit, lastLine(cl.Stderr)), rp(map[string]any{"clean_stderr": tail(cl.Stderr, 1200)}))
 		return
@@ -386,7 +420,7 @@ func (c *e2eCtx) trackAndJudge(s *scenario, decoys bool, r *rand.Rand) {
 	}
 	// clean again: writes nothing
 	os.Remove(wl)
-	cl2 := proj.RunGoat(c.goat, s.dir, []string{"GOAT_VERIF_WRITELOG=" + wl}, "clean")
+	cl2 := proj.RunGoat(c.goat, s.rdir(), []string{"GOAT_VERIF_WRITELOG=" + wl}, "clean")
 	if cl2.Exit != 0 {
 		c.violate("C06", "second goat clean failed", rp(nil))
 	}
@@ -493,7 +527,7 @@ func (c *e2eCtx) judgeC05As(tag string, s *scenario, in *oracle.Instrumentation,
 		if fmt.Sprint(got) != fmt.Sprint(want) {
 			c.violate(tag, fmt.Sprintf("component %d (%s) lists ids %v, the identifiers in its import closure are %v", ci, pk.Dir, got, want), rp(nil))
 		}
-		mf := filepath.Join(pk.Dir, "main.go")
+		mf := filepath.Join(pk.Dir, pk.Entry())
 		serve := in.Serve[mf]
 		if selected(pk.Dir) && len(want) > 0 {
 			if len(serve) != 1 || serve[0] != ci || !in.ServeFirst[mf] {
